@@ -18,7 +18,7 @@ src: conf.c
 enforce: spifconf_parse_line
 prepass: --replace-calls spifconf_shell_expand:v_m_shell_expand --replace-calls spifconf_open_file:v_m_open_file
 backend: sat
-timeout: 900
+timeout: 1800
 funcs: v_ctx_lookup, spifconf_register_context_state, spifconf_register_fstate
 */
 /*@unit
@@ -28,7 +28,7 @@ src: conf.c
 enforce: spifconf_parse_line
 prepass: --replace-calls spifconf_shell_expand:v_m_shell_expand --replace-calls spifconf_open_file:v_m_open_file
 backend: sat
-timeout: 900
+timeout: 1800
 quick: no
 */
 /*@unit
@@ -38,7 +38,7 @@ src: conf.c
 enforce: spifconf_parse_line
 prepass: --replace-calls spifconf_shell_expand:v_m_shell_expand --replace-calls spifconf_open_file:v_m_open_file
 backend: sat
-timeout: 900
+timeout: 1800
 quick: no
 */
 #include "vprelude.h"
